@@ -265,7 +265,7 @@ class Gen:
             props.append(self.E("w:sz", {"w:val": self.r.choice(["24", "32", "9"])}))
             self.feat("fmt_sz")
         if self.p(0.12):
-            props.append(self.E("w:color", {"w:val": self.r.choice(["FF0000", "auto", "00B050"])}))
+            props.append(self.E("w:color", {"w:val": self.r.choice(["FF0000", "auto", "00B050", "000000", "0E1234"])}))
             self.feat("fmt_color")
         # unrecognised properties
         if self.p(0.3):
@@ -367,7 +367,7 @@ class Gen:
 
     def drawing(self):
         self.feat("drawing")
-        name = f"image{len(self.images) + 1}.{self.r.choice(['png', 'jpeg', 'emf'])}"
+        name = f"image{len(self.images) + 1}.{self.r.choice(['png', 'jpeg', 'emf', 'JPG', 'Png', 'tiff'])}"
         kind = self.r.random()
         blip_attrs = {}
         if kind < 0.75:
@@ -500,7 +500,8 @@ class Gen:
         attrs = {}
         c = self.r.random()
         if c < 0.6:
-            tgt = self.r.choice(["http://example.com/", "https://a.b/c?d=e&f=g", "mailto:x@y.z", ""])
+            tgt = self.r.choice(["http://example.com/", "https://a.b/c?d=e&f=g", "mailto:x@y.z", "",
+                                 "https://example.com/app/#/settings"])   # a target that already holds a fragment
             seen = self.link_rids.setdefault(self.cur_part, [])
             if seen and self.p(0.35):
                 # Word reuses one relationship for all links to one target: the same id with
@@ -805,6 +806,14 @@ class Gen:
                         self.feat("styled_continuation_par")
                         tc.append(self.E("w:p", {}, self.E("w:pPr", {}, self.E(
                             "w:pStyle", {"w:val": self.r.choice(["Heading1", "Heading2", "Title"])}))))
+                    elif self.p(0.25):
+                        # a continuation cell that shows nothing but holds text the extraction does not show (a tracked
+                        # deletion, a field code): still a continuation (round-10 seed
+                        # C04-continuation-with-invisible-text-not-merged)
+                        inv = (self.E("w:del", {"w:id": "7"}, self.E("w:r", {}, self.E("w:delText", {}, text="old"))) if self.p(0.5)
+                               else self.E("w:r", {}, self.E("w:instrText", {}, text=" MERGEFIELD x ")))
+                        tc.append(self.E("w:p", {}, inv))
+                        self.feat("continuation_with_invisible_text")
                     else:
                         tc.append(self.E("w:p"))
                 elif self.p(self.k.cell_without_par):
